@@ -9,6 +9,9 @@ Replay:  all call programs on small documents over plain readers; all token list
          over {~ / 0 1 a} on jsontext.Pointer's methods.
 TV:      call programs with the error of each rejected call (offset, pointer) logged, over
          documents of the MC universe and over generated/mutated texts, validated by TLC.
+         Unmarshal of texts that fit a generated type except for one value (number replaced by
+         true, or a value for a chan field) preceded by random whitespace: the SemanticError's
+         ByteOffset and JSONPointer equal Decoder.tla's offset/stack pointer of that value.
 """
 import os
 from decfam import mc_decoder
@@ -19,6 +22,7 @@ def run(ctx):
     ctx.assumptions += [
         "PointerOK admits the value being read, the innermost open container, and (for purely structural errors) that container's parent",
         "OffsetOK: last complete token end <= ByteOffset <= first dead byte (or end of a truncated text)",
+        "a SemanticError for a value that cannot be converted has ByteOffset = first byte of that value and JSONPointer = Decoder.tla's pointer of it",
         "positions of the Encoder: Trace_Encoder compares OutputOffset/StackDepth/StackIndex/StackPointer after each call with Encoder.tla, also across write faults",
     ]
     # --- Pointer laws
@@ -45,5 +49,8 @@ def run(ctx):
     # --- encoder positions (OutputOffset, Stack*) after every call, also across write faults
     ne = 120 if ctx.quick else 3000
     ctx.tv("enc", "Trace_Encoder", {"seed": ctx.seed, "n": ne, "mode": "c07", "prop": "C16"}, consts={"MaxD": 10000})
+    # --- SemanticError positions from Unmarshal: offset and pointer of the value that does not convert
+    ns = 1500 if ctx.quick else 40000
+    ctx.tv("arshal", "Trace_Arshal", {"seed": ctx.seed, "n": ns, "mode": "c16sem"}, consts={"MaxD": 10000})
     ctx.cov["distinct_nontrivial"] = int(summ.get("cases", 0)) + int(s.get("cases", 0)) + n
     ctx.cov["rule"] = "distinct call programs x documents (positions after every call) + distinct pointer token lists + generated/mutated texts with the error position of every rejected call"
